@@ -716,6 +716,10 @@ func readSizeSize(sr bits.SliceReader, maxLen int) (sizeFieldSizeMinus1 byte, si
 		if nrRead >= maxLen {
 			return 0, 0, fmt.Errorf("descriptor size field longer than the %d bytes available", maxLen)
 		}
+		if sizeFieldSizeMinus1 == 255 || sizeOfInstance>>57 != 0 {
+			// the field length is kept in a byte and the value in 64 bits: anything beyond cannot be written back
+			return 0, 0, fmt.Errorf("descriptor size field has more than 256 bytes or more than 64 significant bits")
+		}
 		tmp = sr.ReadUint8()
 		nrRead++
 		sizeFieldSizeMinus1++
